@@ -396,9 +396,9 @@ func partBFamilies(tier string) []*core.Family {
 	leaves := permissive.leaves
 	if tier == "thorough" {
 		return []*core.Family{
-			seqFamily("B-seq-1val-allkinds-len6", bcfg{kinds: all, ctxKinds: ctxs, leaves: leaves, nvals: 1, maxDepth: 2, maxCtx: 2, length: 6}, 200, "lua", "go", "gostep"),
-			seqFamily("B-seq-2val-len6", bcfg{kinds: small, ctxKinds: ctxs, leaves: leaves, nvals: 2, maxDepth: 2, maxCtx: 2, length: 6}, 300),
-			seqFamily("B-seq-3val-T-UFR-len6", bcfg{kinds: []uint8{kT, kUFR}, ctxKinds: []uint8{cCPU, cSoft}, leaves: []uint8{lRet, lKill}, nvals: 3, maxDepth: 1, maxCtx: 1, length: 6}, 200),
+			seqFamily("B-seq-1val-allkinds-len6", bcfg{kinds: all, ctxKinds: ctxs, leaves: leaves, nvals: 1, maxDepth: 2, maxCtx: 2, length: 6}, 120, "lua", "go", "gostep"),
+			seqFamily("B-seq-2val-len6", bcfg{kinds: small, ctxKinds: ctxs, leaves: leaves, nvals: 2, maxDepth: 2, maxCtx: 2, length: 6}, 180),
+			seqFamily("B-seq-3val-T-UFR-len6", bcfg{kinds: []uint8{kT, kUFR}, ctxKinds: []uint8{cCPU, cSoft}, leaves: []uint8{lRet, lKill}, nvals: 3, maxDepth: 1, maxCtx: 1, length: 6}, 90),
 			batchFamily(),
 			ioFamily(),
 		}
